@@ -243,6 +243,14 @@ impl SubArgs {
             SubArgs::Lpc { .. } => "Lpc::new",
         }
     }
+    fn kind_code(&self) -> u8 {
+        match self {
+            SubArgs::Constant { .. } => 0,
+            SubArgs::Verbatim { .. } => 1,
+            SubArgs::Fixed { .. } => 2,
+            SubArgs::Lpc { .. } => 3,
+        }
+    }
     fn bps(&self) -> usize {
         match self {
             SubArgs::Constant { bps, .. } | SubArgs::Verbatim { bps, .. } | SubArgs::Fixed { bps, .. } | SubArgs::Lpc { bps, .. } => *bps,
@@ -750,9 +758,30 @@ pub fn check(case: &Case18) -> Outcome {
                 out.class("Stream:frames-disagree-with-STREAMINFO(not judged)");
                 return out;
             }
+            // Frames that agree with the stream format and are numbered the way Stream::verify documents (fixed blocking:
+            // "must be the count of the preceding frames"; variable blocking: "must be the sum of the block sizes of the
+            // preceding frames") form a stream that is consistent by construction: the verification routine must accept it.
+            let consistent = !frames.is_empty() && {
+                let variable = frames[0].header.variable;
+                let mut sum = 0u64;
+                frames.iter().enumerate().all(|(i, f)| {
+                    let ok = f.header.variable == variable && f.header.offset == if variable { sum } else { i as u64 };
+                    sum += f.header.block as u64;
+                    ok
+                })
+            };
+            if consistent && frames[0].header.variable && frames.len() >= 3 && frames.windows(2).any(|w| w[0].header.block != w[1].header.block) {
+                out.class("Stream:assembled-consistent:variable:>=3-frames-of-differing-size");
+            }
+            if consistent {
+                out.class(format!("Stream:assembled-consistent:variable={}:frames={}", frames[0].header.variable, frames.len().min(4)));
+            }
             // a stream is a component assembled from accepted parts: only judged when it verifies
             match catch(|| stream.verify()) {
                 Err(p) => return viol1(out, format!("{what}:verify-panic:{}", normalise(&p.sig())), format!("{} at {}", p.msg, p.loc)),
+                Ok(Err(e)) if consistent => {
+                    return viol1(out, format!("{what}:consistent-assembled-stream-does-not-verify"), format!("{} frames (variable blocking: {}), block sizes {:?}: {e}", frames.len(), frames[0].header.variable, frames.iter().map(|f| f.header.block).collect::<Vec<_>>()));
+                }
                 Ok(Err(_)) if !frames.is_empty() => {
                     out.class("Stream:assembled-stream-does-not-verify(not judged)");
                     return out;
@@ -960,6 +989,25 @@ fn header_grid() -> Vec<Case18> {
     v
 }
 
+/// Every block size 0..=65537 and every sample rate 0..=96100 (plus the multiples of 10 up to 655350 and of 1000 up to
+/// 255000, the code families) through `FrameHeader::new`: the code tables are finite, so they are enumerated.
+fn header_sweep() -> Vec<Case18> {
+    let mut v = vec![];
+    for block in 0usize..=65537 {
+        v.push(Case18::Header(HeaderArgs { block, assign: 2, bps: 16, rate: 44100, variable: block % 2 == 1, offset: 5 }));
+    }
+    for rate in 0usize..=96100 {
+        v.push(Case18::Header(HeaderArgs { block: 192, assign: 1, bps: 16, rate, variable: false, offset: 0 }));
+    }
+    for k in 0usize..=65540 {
+        v.push(Case18::Header(HeaderArgs { block: 4096, assign: 1, bps: 24, rate: k * 10, variable: false, offset: 1 }));
+    }
+    for k in 0usize..=260 {
+        v.push(Case18::Header(HeaderArgs { block: 576, assign: 102, bps: 8, rate: k * 1000, variable: true, offset: 576 }));
+    }
+    v
+}
+
 fn consistent_sub(kind: u8, block: usize, bps: usize, seed: u64) -> SubArgs {
     match kind % 4 {
         0 => {
@@ -1088,6 +1136,30 @@ fn stream_grid() -> Vec<Case18> {
                         })
                         .collect();
                     v.push(Case18::Stream { info: good(ch, 16), via_new, meta: if kind == 1 { vec![(9, 4)] } else { vec![] }, frames });
+                }
+            }
+        }
+    }
+    // variable blocking: start-sample numbers, block sizes that change from frame to frame
+    for via_new in [false, true] {
+        for sizes in [vec![64usize, 64, 64], vec![1000, 2000, 1500], vec![2000, 1000, 1500, 300], vec![16, 4608, 1, 192, 4096], vec![1, 1, 1], vec![4096, 17]] {
+            for kind in 0..4u8 {
+                for &(assign, ch) in &[(1u8, 1usize), (2, 2), (101, 2)] {
+                    let mut sum = 0u64;
+                    let frames: Vec<FrameArgs> = sizes
+                        .iter()
+                        .enumerate()
+                        .map(|(n, &b)| {
+                            let side = |c: usize| (assign >= 100 && ((assign == 101) ^ (c == 1))) as usize;
+                            let f = FrameArgs {
+                                header: HeaderArgs { block: b, assign, bps: 16, rate: 32000, variable: true, offset: sum },
+                                subs: (0..ch).map(|c| consistent_sub(kind + c as u8 + n as u8, b, 16 + side(c), 700 + n as u64)).collect(),
+                            };
+                            sum += b as u64;
+                            f
+                        })
+                        .collect();
+                    v.push(Case18::Stream { info: InfoArgs { rate: 32000, channels: ch, bps: 16, ops: vec![] }, via_new, meta: vec![], frames });
                 }
             }
         }
@@ -1294,7 +1366,7 @@ fn case_strategy() -> BoxedStrategy<Case18> {
         5 => frame_strategy().prop_map(Case18::Frame),
         3 => info_strategy().prop_map(Case18::Info),
         1 => (any::<u8>(), 0usize..=300).prop_map(|(tag, len)| Case18::Unknown { tag, len }),
-        3 => (info_strategy(), any::<bool>(), proptest::collection::vec((any::<u8>(), 0usize..=50), 0..=3), proptest::collection::vec(frame_strategy(), 0..=3), any::<bool>()).prop_map(|(mut info, via_new, meta, mut frames, align)| {
+        3 => (info_strategy(), any::<bool>(), proptest::collection::vec((any::<u8>(), 0usize..=50), 0..=3), proptest::collection::vec(frame_strategy(), 0..=5), any::<bool>()).prop_map(|(mut info, via_new, meta, mut frames, align)| {
             if align && !frames.is_empty() {
                 // make the frames agree with each other and with the stream format so that the stream verifies
                 let h0 = frames[0].header.clone();
@@ -1302,10 +1374,22 @@ fn case_strategy() -> BoxedStrategy<Case18> {
                 info.bps = h0.bps;
                 info.rate = h0.rate.min(96000);
                 let f0 = frames[0].clone();
+                let variable = f0.header.variable;
+                let ragged = f0.header.offset % 2 == 1;
+                let mut sum = 0u64;
                 for (n, f) in frames.iter_mut().enumerate() {
+                    let own_block = f.header.block;
                     *f = f0.clone();
-                    f.header.variable = false;
-                    f.header.offset = n as u64;
+                    if variable && ragged && n > 0 && (1..=4608).contains(&own_block) {
+                        // variable blocking: block sizes may change from frame to frame
+                        let kinds: Vec<u8> = f.subs.iter().map(|s| s.kind_code()).collect();
+                        let widths: Vec<usize> = f.subs.iter().map(|s| s.bps()).collect();
+                        f.header.block = own_block;
+                        f.subs = kinds.iter().zip(&widths).enumerate().map(|(c, (k, w))| consistent_sub(*k, own_block, *w, 31 * n as u64 + c as u64)).collect();
+                    }
+                    f.header.variable = variable;
+                    f.header.offset = if variable { sum } else { n as u64 };
+                    sum += f.header.block as u64;
                 }
             }
             Case18::Stream { info, via_new, meta, frames }
@@ -1330,6 +1414,7 @@ pub fn run(ctx: &Ctx) {
         ("grid:parameters", qp_grid()),
         ("grid:subframe", sub_grid()),
         ("grid:header", header_grid()),
+        ("grid:header-sweep", header_sweep()),
         ("grid:frame", frame_grid()),
         ("grid:streaminfo", info_grid()),
         ("grid:stream", stream_grid()),
